@@ -33,3 +33,38 @@ func isUnexpectedEOF(err error) bool { return err == io.ErrUnexpectedEOF }
 //@ func QuoteRune
 //@ property C20
 //@ ensures len(result) >= 0
+
+//@ func TrimSuffixWhitespace
+//@ property C07 C12 C20
+//@ ensures prefix: len(result) <= len(b) && vForall(0, len(result), func(i int) bool { return result[i] == b[i] })
+//@ ensures trimmed: vForall(len(result), len(b), func(i int) bool { return isWS(b[i]) })
+//@ ensures maximal: len(result) == 0 || !isWS(b[len(result)-1])
+//@ loop 0 invariant -1 <= n && n < len(b)
+//@ loop 0 invariant vForall(n+1, len(b), func(i int) bool { return isWS(b[i]) })
+//@ loop 0 decreases n + 1
+
+//@ func HasSuffixByte
+//@ property C07 C20
+//@ ensures result == (len(b) > 0 && b[len(b)-1] == c)
+
+//@ func TrimSuffixByte
+//@ property C07 C20
+//@ ensures len-is: len(result) == ite(len(b) > 0 && b[len(b)-1] == c, len(b)-1, len(b))
+//@ ensures prefix: vForall(0, len(result), func(i int) bool { return result[i] == b[i] })
+
+//@ func isInvalidUTF8
+//@ inline
+//@ property C11 C13 C20
+//@ ensures result == (r == utf8.RuneError && rn == 1)
+
+// TrimSuffixString trims a JSON string literal from the end of b. What is
+// proved for every input: the result is a prefix of b; when b ends with a
+// quote, the result is cut at an unescaped quote (or is short).
+//
+//@ func TrimSuffixString
+//@ property C07 C20
+//@ ensures prefix: len(result) <= len(b) && vForall(0, len(result), func(i int) bool { return result[i] == b[i] })
+//@ ensures cut: len(b) >= 2 && b[len(b)-1] == '"' && len(result) >= 2 ==> b[len(result)] == '"' && b[len(result)-1] != '\\'
+//@ loop 0 invariant len(b) <= len(old(b)) && vForall(0, len(b), func(i int) bool { return b[i] == old(b)[i] })
+//@ loop 0 invariant len(old(b)) > 0 && old(b)[len(old(b))-1] == '"' ==> len(b) < len(old(b))
+//@ loop 0 decreases len(b)
